@@ -40,6 +40,29 @@ def record(_name, cls=None, **fields):
     return o
 
 
+def init_defaults(cls):
+    """Attributes that the class's own __init__ sets to a literal (None, numbers, strings, empty containers): the state a freshly
+    constructed object starts with, read from the real AST - so that a harness record is not missing a field that the code under
+    contract introduced (a memo table, a cache slot)."""
+    import ast
+    out = {}
+    fi = cls.find_method('__init__') if cls is not None else None
+    if fi is None:
+        return out
+    for n in ast.walk(fi.node):
+        tgt, val = None, None
+        if isinstance(n, ast.Assign) and len(n.targets) == 1:
+            tgt, val = n.targets[0], n.value
+        elif isinstance(n, ast.AnnAssign) and n.value is not None:
+            tgt, val = n.target, n.value
+        if isinstance(tgt, ast.Attribute) and isinstance(tgt.value, ast.Name) and tgt.value.id == 'self':
+            try:
+                out.setdefault(tgt.attr, ast.literal_eval(val))
+            except (ValueError, SyntaxError):
+                pass
+    return out
+
+
 def xyz(_name, cls=None, **more):
     return record(_name, cls, x='real', y='real', z='real', **more)
 
